@@ -5,6 +5,7 @@ import (
 	"encoding/json"
 	"errors"
 	"fmt"
+	"strings"
 	"sync"
 
 	"github.com/elementsproject/peerswap/log"
@@ -1012,7 +1013,7 @@ func (s *SwapService) lockSwap(swapId, channelId string, fsm *SwapStateMachine) 
 
 	// Check if we already have an active swap on the same channel
 	for id, swap := range s.activeSwaps {
-		if swap.Data.GetScid() == channelId {
+		if sameChannel(swap.Data.GetScid(), channelId) {
 			return ActiveSwapError{channelId: channelId, swapId: id}
 		}
 	}
@@ -1020,6 +1021,12 @@ func (s *SwapService) lockSwap(swapId, channelId string, fsm *SwapStateMachine) 
 	// Add active swap
 	s.activeSwaps[swapId] = fsm
 	return nil
+}
+
+// sameChannel compares two short channel ids irrespective of the separator
+// they are written with (CLN uses 'x', LND ':').
+func sameChannel(a, b string) bool {
+	return strings.ReplaceAll(a, ":", "x") == strings.ReplaceAll(b, ":", "x")
 }
 
 type ActiveSwapError struct {
